@@ -29,6 +29,11 @@ claimed = {
    text="rac.Writer driven symbolically through its public API with a length-framed store codec (supports Cut and shared resources): every payload of N symbolic bytes, every partition into up to WRITES Write calls (split points symbolic), both chunk-sizing modes, page sizes, both index locations, plain and seekable temp files, 0-2 shared resources chosen nondeterministically per chunk. When Close returns nil the produced bytes must pass a walker written from doc/spec/rac-spec.md (root discovery, branch-node validation, parent/child and anti-loop rules, MakeCRange, contiguous leaves) whose reconstruction equals the payload byte for byte, and the real rac.Reader must return exactly the payload. Fault harness: the k-th I/O call (k symbolic) on the underlying writer / temp file fails; the failure must be reported by that call and stay reported by every later Write and Close. Unit lemmas: one writeBuffer operation from an arbitrary state against the abstract byte sequence.",
    note="Bounds: quick N<=8, WRITES<=3, chunk sizes 1-3 data bytes, CPageSize in {0,4,8}; thorough N<=8 with three writes. One index level only (arity <= 255). Real zlib/lz4/zstd codecs are outside (stub codec instead); trusted: the spec walker and stub codec in harness/go/c13, gossa, z3.",
    tech="symbolic execution of go/ssa + SMT (payload bytes, split points and fault point symbolic), spec-walker oracle, native replay"),
+
+ "C15": dict(cat="model_checking", design="DESIGN.md §4 C15",
+   text="rac.ChunkReader executed symbolically on files whose every byte is symbolic except the magic and first arity byte of one or two designated index-node positions (root at start or at end, optional second node): all pointers, tags, lengths, reserved bytes, second arity byte, version, codec byte and the claimed CompressedSize are solver variables, the node checksums are 'repaired' through an uninterpreted CRC (natively: the real CRC). Script: DecompressedSize, optional SeekToChunkContaining(symbolic offset), up to STEPS NextChunk calls. Assertions: no panic; every loop leaves within the unwinding bound (a feasible path beyond it is replayed natively under a watchdog and reported as a hang); a rejected file stays rejected or yields only well-formed chunks; every chunk has 0 <= CPrimary.lo <= CPrimary.hi <= CompressedSize, a non-empty DRange inside the decompressed size, contiguous with its predecessor (or containing the seek target); io.EOF only at the decompressed size.",
+   note="Bounds: arity <= 2 (thorough 3), <= 2 index nodes, files of 32-82 (120) bytes, <= 3-5 NextChunk calls. Outside: files where the magic bytes occur at non-designated offsets (their checksum could not be repaired for replay), racdict dictionary loading, Reader.Read on hostile chunk payloads. Trusted: gossa, z3, CRC as an uninterpreted function.",
+   tech="symbolic execution of go/ssa + SMT over symbolic file bytes, unwinding assertions as hang detector, native replay under watchdog"),
 }
 na = {
 }
